@@ -104,6 +104,12 @@ def twin_configs(rng):
 
 
 def gen_case(rng, tier, ctx, i):
+    if i == 0 and ctx.seed % 1000 == 0:
+        # the recorded witness of the open finding `assume-rebinds-named-node` is replayed in every run
+        m = {"k": "All", "id": "T", "args": [{"k": "Any", "id": "X", "args": [{"k": "var", "id": "a", "b": [0, 1]}, {"k": "var", "id": "b", "b": [0, 1]}]},
+                                             {"k": "var", "id": "c", "b": [0, 1]}]}
+        return {"bases": [m, copy.deepcopy(m)], "steps": 0, "seed": 1,
+                "script": [[0, "evaluate", [{"a": 1, "b": 0, "c": 1, "X": 0}]], [0, "evaluate", [{"a": 1, "b": 0, "c": 1}]], [1, "evaluate", [{"a": 1, "b": 0, "c": 1}]]]}
     bases = []
     r = rng.random()
     if r < 0.35:
@@ -224,13 +230,19 @@ def run_case(case, ctx):
     opseq = []
     touched = set()
     named_any = False
-    for step in range(case["steps"]):
-        k = rng.randrange(len(live))
-        e = live[k]
-        po = pick_op(rng, e, ctx)
-        if po is None:
-            continue
-        op, args, named = po
+    script = list(case.get("script") or [])
+    for step in range(max(case["steps"], len(script))):
+        if script:
+            k, op, args = script.pop(0)
+            e = live[k]
+            named = True
+        else:
+            k = rng.randrange(len(live))
+            e = live[k]
+            po = pick_op(rng, e, ctx)
+            if po is None:
+                continue
+            op, args, named = po
         orec_before = copy.deepcopy(e["orec"])
         EPOCH[0] += 1
         del WRITES[:]
